@@ -6,9 +6,11 @@
 //!
 //! usage: mv-harness <property> --seed N --cases N --out DIR [--thorough] [--replay FILE]
 
+mod c02;
 mod c07;
 mod c08;
 mod prom;
+mod sched;
 mod expo;
 mod util;
 
@@ -52,6 +54,7 @@ fn main() {
     }
     let mut out = Out::new(&cfg.out);
     match prop.as_str() {
+        "C02" => c02::run(&cfg, &mut out),
         "C07" => c07::run(&cfg, &mut out),
         "C08" => {
             c08::run(&cfg, &mut out);
